@@ -22,6 +22,7 @@ func init() {
 			"R3 in (*Server).Serve no path from the temporary-accept-error edge or from a failed connection constructor reaches a return before the next Accept, and the accept loop makes no plain call that reads messages or invokes handlers; " +
 			"R4 on the read-error edge the loop offers the error to ErrorReporter.Error guarded only by the EOF / UnexpectedEOF exclusions and the interface test, then leaves the loop; " +
 			"R5 a lock that may be held while a handler runs is released by a deferred unlock (so a recovered handler panic cannot leave the shared mux locked), and every pooled read buffer is released exactly once by a defer of the acquiring function (so an error path cannot make two connections share a buffer). " +
+			"R3 also: listeners of the library hand Accept errors on unwrapped, so the temporary-error test of the accept loop can see them; R4 also holds when the report is issued through a helper or through the handler's fallback reporter. " +
 			"Not decided: fault placements as executions, behaviour of net.Listener implementations, panics outside the handler goroutine (e.g. in goroutines a handler starts).",
 		Rules: map[string]string{
 			"R1": "defer(recover + close transport) dominates every other call of the connection loop; dispatch is in the same function",
